@@ -152,6 +152,21 @@ func runStepConformance(c *Ctx, o stepConfOpts) {
 					sampleMu.Unlock()
 				}
 			}
+			// the sweep runs on a by-value copy of a CPU with a past (warmFork)
+			{
+				b := lat.Bases[int(ei)%len(lat.Bases)]
+				materialise(&b, e, &cs)
+				w.imem.Reset()
+				w.iio.Reset()
+				lim := w.imem.Limit
+				w.imem.Limit = 0
+				hook := w.imem.Hook
+				w.imem.Hook = nil
+				iohook := w.iio.Hook
+				w.iio.Hook = nil
+				w.cpu = warmFork(w.imem, w.iio, w.imem.Poke, &cs.S, cs.Bytes)
+				w.imem.Limit, w.imem.Hook, w.iio.Hook = lim, hook, iohook
+			}
 			lat.forEachProto(e, seen, run)
 			if o.allR {
 				for b := range lat.Bases {
